@@ -211,7 +211,8 @@ Inductive fin :=
 | FCreateOC (ru : rule) (v : rec)
 | FInit (ic : list cond)
 | FFoc (ic : list cond)
-| FSaveSlice (vs : list rec).   (* Save(&[]Acct{...}): one INSERT ... ON CONFLICT UPDATE ALL, keys handed back *)
+| FSaveSlice (vs : list rec)
+| FSaveOmit (os : list col) (v : rec).   (* Omit(cols...).Save(&v) *)   (* Save(&[]Acct{...}): one INSERT ... ON CONFLICT UPDATE ALL, keys handed back *)
 
 (* res_writes = number of INSERT/UPDATE statements sent to the driver (failed ones included) *)
 Record result := mk_result { res_ret : rec; res_ra : Z; res_err : bool; res_writes : Z; res_tbl : table }.
@@ -294,6 +295,41 @@ Definition first_or_create (keep : bool) (t : table) (now : Z) (h : handle) (ic 
       end
   end.
 
+(* ---- Omit(cols...).Save(&v): the same UPDATE / upsert with the omitted columns left out ---------- *)
+Definition save_cols : list col := [CName; CAge; CEmail; CCat; CUat; CDel].
+Definition omitted (os : list col) (c : col) : bool := existsb (col_eqb c) os.
+Definition copy_cols (cs : list col) (src dst : rec) : rec :=
+  fold_left (fun o c => set_col c (get_col c src) o) cs dst.
+Definition kept (os cs : list col) : list col := filter (fun c => negb (omitted os c)) cs.
+
+(* INSERT without the omitted columns (they stay NULL: zero / none), tracked times filled only where
+   the column is inserted; ON CONFLICT UPDATE ALL over the inserted columns *)
+Definition create_omit (t : table) (now : Z) (os : list col) (upsert : bool) (v : rec) : result :=
+  let v1 := copy_cols (kept os [CCat; CUat]) (fill_times now v) v in
+  let k := if r_id v1 =? 0 then next_id t else r_id v1 in
+  let x := with_id k v1 in
+  match (if r_id v1 =? 0 then None else lookup t k) with
+  | None => mk_result x 1 false 1 (insert t (with_id k (copy_cols (kept os save_cols) v1 zero_rec)))
+  | Some _ =>
+      if upsert
+      then mk_result x 1 false 1
+             (upd_where (fun r => r_id r =? k)
+                        (fun old => let o1 := copy_cols (kept os [CName; CAge; CEmail; CDel]) v1 old in
+                                    if omitted os CUat then o1 else with_uat now o1) t)
+      else mk_result x 0 true 1 t
+  end.
+
+Definition save_omit (t : table) (now : Z) (os : list col) (v : rec) : result :=
+  if r_id v =? 0 then create_omit t now os false v
+  else
+    let v2 := if omitted os CUat then v else with_uat now v in
+    let hit := fun x => (r_id x =? r_id v) && live x in
+    let n := count_where hit t in
+    if 0 <? n
+    then mk_result v2 n false 1 (upd_where hit (copy_cols (kept os save_cols) v2) t)
+    else let r := create_omit t now os true v2 in
+         mk_result (res_ret r) (res_ra r) (res_err r) 2 (res_tbl r).
+
 (* DB.Save on a slice: Create with OnConflict{UpdateAll} and gorm:update_track_time — per element the
    same row the struct fallback writes (updated_at := now, zero created_at := now); SQLite processes the
    VALUES rows in order (a zero key becomes max(key)+1 at that moment) and RETURNING hands every row's
@@ -311,6 +347,7 @@ Definition step (keep : bool) (t : table) (now : Z) (ch : list cel) (f : fin) : 
   | FFoc ic => first_or_create keep t now h ic
   | FSaveSlice vs => let run := save_slice_run t now vs in
                      mk_result (last (snd run) zero_rec) (Z.of_nat (length vs)) false 1 (fst run)
+  | FSaveOmit os v => save_omit t now os v
   end.
 
 (* the caller's slice after the call (FSaveSlice only) *)
